@@ -26,7 +26,7 @@ NA.update(extra.get('na', {}))
 
 m = {
  "version": 1,
- "setup_cmd": "cd /verif && mkdir -p work evidence replays && CARGO_NET_OFFLINE=true python3-vt -m mirsym.build",
+ "setup_cmd": "cd /verif && mkdir -p work evidence replays && CARGO_NET_OFFLINE=true python3-vt -m mirsym.build --release --std",
  "hooks": {"guard": "microscpi_verif", "enable": "none needed: MIR exposes private functions; the generated device crate and the Kani crate use the public API only",
            "baseline_off_cmd": "cd /repo && cargo test --workspace --no-fail-fast --offline", "source_commits": [], "add_only": True},
  "engines": [{"name": "mirsym", "path": "/verif/mirsym", "serves_properties": sorted(k for k, c in CHECKS.items() if c.get('engine', 'mirsym') == 'mirsym'),
